@@ -21,6 +21,16 @@ CLAIMED = {
         design="§4 C08"),
 }
 
+CLAIMED["C02"] = dict(
+    text="Bounded symbolic model checking of the real solver code: one filter step from an ARBITRARY state (symbolic "
+         "mean, Cholesky factor, prior noise factor, base scale, time, step size, damping, polynomial vector field) is "
+         "shown equal to the textbook EKF step in covariance form for all three factorisations, three calibration "
+         "modes, TS0/TS1, first/second-order ODEs (z3 QF_LRA unsat on linearised polynomial-identity obligations); "
+         "solve_fixed_grid is shown to be init followed by exactly these steps (relational, same trace). By induction "
+         "this covers every grid; the induction itself is stated, not machine-checked.",
+    technique="jaxpr symbolic execution + polynomial hypotheses + z3 QF_LRA (XL certificates); z3 NRA refutation; float64 replay",
+    design="§4 C02")
+
 NOT_APPLICABLE = {
     "C01": "Global error vs the true (transcendental) ODE solution and observed convergence rates in floating point "
            "cannot be expressed as a bounded real-arithmetic query over the code; its mechanisms are decided under C02, C06, C07, C09.",
